@@ -82,6 +82,19 @@ func genC27(gen *sim.Stream) *c27Stream {
 	for i := 0; i < before; i++ {
 		filler()
 		stmt()
+		if gen.Draw(6) == 5 {
+			// an earlier chunk that fails (compile error, or a panic at run time):
+			// its lines count like everybody else's
+			filler()
+			n++
+			add([]string{
+				fmt.Sprintf("var e%d = undefinedEarlier%d +\n\t1\n", n, n),
+				fmt.Sprintf("var z%d = 0\nvar e%d = 10 /\n\tz%d\n", n, n, n),
+				fmt.Sprintf("func bad%d() {\n\tvar m map[string]int\n\tm[\"a\"] = 1\n}\nbad%d()\n", n, n),
+			}[gen.Draw(3)])
+			st.ChunksPrev++
+			st.Items = append(st.Items, "failing-chunk")
+		}
 	}
 	filler()
 	indent := inlineComment()
